@@ -16,8 +16,13 @@ def sline(shape, dims, starts, ends, units, rm):
     return 'slice %s %s %s %s %s %s' % (lst([str(n) for n in shape]), lst([d.tok() for d in dims]), lst([f64(x) for x in starts]),
                                         lst([f64(x) for x in ends]), lst([S(u) for u in units]), rm)
 
-def gen_slice(rng):
-    shape, dims = G.make_array(rng)
+def gen_slice(rng, scaled_range=False):
+    if scaled_range:
+        # range (and sampled) dimensions that all have a unit, the request in another unit of the same quantity
+        rank0 = rng.choice([1, 2, 2, 3])
+        shape, dims = G.make_array(rng, rank=rank0, kinds=[rng.choice(['R', 'R', 'S']) for _ in range(rank0)], unit_prob=1.0)
+    else:
+        shape, dims = G.make_array(rng)
     rank = len(shape)
     ns = rng.choice([rank] * 6 + [max(0, rank - 1)] * 2 + [0, rank + 1])
     ne = ns if rng.random() < 0.85 else rng.choice([max(0, rank - 1), rank, 0])
@@ -28,7 +33,7 @@ def gen_slice(rng):
         e = p + G.pick_extent(d, p, rng)
         if i < ns: starts.append(p)
         if i < ne: ends.append(e)
-    r = rng.random()
+    r = rng.random() if not scaled_range else 0.9
     if r < 0.45:
         units = []
     else:
@@ -146,7 +151,7 @@ def slice_cases(tier, seed, rng):
     n = 1000 if tier == 'quick' else 25000
     out, batch = [], []
     for k in range(n):
-        shape, dims, starts, ends, units = gen_one_sided(rng) if k % 12 == 11 else gen_slice(rng)
+        shape, dims, starts, ends, units = gen_one_sided(rng) if k % 12 == 11 else gen_slice(rng, scaled_range=(k % 12 == 5))
         for rm in ('incl', 'excl'):
             batch.append(sline(shape, dims, starts, ends, units, rm))
         if len(batch) >= 200:
